@@ -62,6 +62,24 @@ def cross(run, cases, ia, ma, sp):
                 if fk is not None and ia.get(fk) != r:
                     report(n, f"name {n} from {f}: resolve_fixture_for_file (outgoing calls) gives {ia.get(fk)}, go-to-definition resolves to {r}", [rk, fk])
     run.stats["file_name_pairs_compared"] = run.stats.get("file_name_pairs_compared", 0) + compared
+    # go-to-definition vs find_fixture_or_definition_at_position (go-to-implementation, call hierarchy)
+    pos = 0
+    for cname, keys in by_case.items():
+        g, fo = {}, {}
+        for k in keys:
+            q = cases.queries[k]
+            if q[1] == "goto": g[(q[2], q[3], q[4])] = k
+            elif q[1] == "fod": fo[(q[2], q[3], q[4])] = k
+        for key, gk in g.items():
+            fk = fo.get(key)
+            if fk is None or ia.get(gk) in (None, "none"):
+                continue
+            pos += 1
+            if ia.get(fk) != ia.get(gk):
+                msg = (f"case {cname}: at {key[0]}:{key[1]}:{key[2]} go-to-definition/hover describe {ia.get(gk)} but "
+                       f"go-to-implementation/call-hierarchy preparation describe {ia.get(fk)}")
+                v.violation(f"{cname}-{fk[1]}", msg, f"# {msg}\n# queries #{gk[1]} and #{fk[1]}\n" + cases.replay_text(cname))
+    run.stats["positions_compared_goto_vs_fod"] = run.stats.get("positions_compared_goto_vs_fod", 0) + pos
 
 
 def run(tier, seed):
@@ -76,6 +94,8 @@ def run(tier, seed):
         name = "w%d" % i
         cases.case(name, ws.meta)
         wsgen.emit_setup(cases, ws)
+        # navigation vs implementation / call-hierarchy preparation at every usage column
+        wsgen.emit_queries(cases, ws, probes=("goto", "fod"), every_col=True, extra=False)
         for p in ws.files:
             cases.q("avail", p)
             for nm in wsgen.NAMES + ["uses_it"]:
